@@ -20,22 +20,22 @@ _SOLVER_TECH = "TLC model checking of the exact GF(5039^2) solver model (spec/So
 _SOLVER_NOTE = "Assumes: the checked identities are polynomial in (source, per-mode transfer) so exactness over GF(p^2) transfers to the complex numbers (Schwartz-Zippel, field size 2.5e7); padded size <= 10 per axis and nz <= 5 in TLC (the code has no size-dependent branch other than parity and the clamp, both inside the bounds); the boundary square root / analytic exponential are uninterpreted conjugation-equivariant functions; the model was shown to reproduce the pinned commit's failure sets exactly (harness/faithful.py); floating-point comparison at 1e-10 (double) / 2e-4 (single) relative, bit-identical where the property says exactly."
 CHECKS.update({
     "C03": dict(technique=_SOLVER_TECH % "conserve",
-        text="TLC checks MeanFlux (mean flux at every level = mean source, footprint weights sum to one), MeanConc (mean concentration = background - mean flux x trapezoidal resistance to the labelled height) and HaloIsPadding (a halo equals explicit zero padding by floor(halo/dx), floor(halo/dy) cells, enlarging the domain, cropping) exactly on the field model for all configurations in the bounds, numerical and analytic; each configuration is replayed on the real solver (means to 1e-10, halo-vs-padding field comparison) and its stage events are validated against the specification.",
+        text="TLC checks MeanFlux (mean flux at every level = mean source, footprint weights sum to one), MeanConc (mean concentration = background - mean flux x trapezoidal resistance to the labelled height) and HaloIsPadding (a halo equals explicit zero padding by floor(halo/dx), floor(halo/dy) cells, enlarging the domain, cropping) exactly on the field model for all configurations in the bounds, numerical and analytic; each configuration is replayed on the real solver (means to 1e-10, halo-vs-padding field comparison) and its stage events are validated against the specification. An advisory family (never an alarm) additionally checks the discrete boundary conditions: flux at node 0 = prescribed flux / unit impulse, radiation condition at the top node.",
         note=_SOLVER_NOTE, design="4/C03"),
     "C04": dict(technique=_SOLVER_TECH % "linear",
         text="TLC checks superposition for three coefficient pairs on pseudo-random sources, that the background only offsets the concentration uniformly and never the flux, and that footprint mode ignores the source values, exactly on the field model (numerical and analytic, all halo/mode classes); replays run three real calls per scenario with sign-changing sources and compare to 1e-10 (flux under a background change and footprint-mode independence bit-identically).",
         note=_SOLVER_NOTE, design="4/C04"),
     "C06": dict(technique=_SOLVER_TECH % "translate",
-        text="TLC checks, for every whole-cell shift including wrap-around and every tower cell, TranslateSource, TranslateTower, PointReflect (footprint = point reflection about the tower of the unit-source response) and Recentre (dispersion mode with a non-zero measurement point moves that cell to the domain centre) exactly on the field model; replays compare np.roll-ed real outputs on dx != dy grids with oblique anisotropic profiles.",
+        text="TLC checks, for every whole-cell shift including wrap-around and every tower cell, TranslateSource, TranslateTower, PointReflect (footprint = point reflection about the tower of the unit-source response) and Recentre (dispersion mode with a non-zero measurement point moves that cell to the domain centre) exactly on the field model; with a halo (1, 3 units) the same relations are stated and replayed between all pairs of cells inside the cropped window (TranslateTowerIn, PointReflectIn; negative control: raw halo in the phase shift); replays compare np.roll-ed / window-sliced real outputs on dx != dy grids with oblique anisotropic profiles.",
         note=_SOLVER_NOTE, design="4/C06"),
     "C07": dict(technique=_SOLVER_TECH % "symmetry",
-        text="TLC checks MirrorX, MirrorY (source mirrored, wind component negated) and Transpose (all per-axis quantities swapped) exactly on the field model; the Nyquist exemption set of the mirror identities is derived by the model (difference spectrum supported only on the +-nl/2 rows/columns) and used to filter the replays. Similarity scalings (lengths and K times 2^k; winds and K times 2^k) are replayed bit-identically on the real solver with power-of-two factors.",
+        text="TLC checks MirrorX, MirrorY (source mirrored, wind component negated) and Transpose (all per-axis quantities swapped) exactly on the field model, and the reflection about the domain centre for ANY halo on configurations whose retained mode count is odd (MirrorCentreX/Y, family mirror); the Nyquist exemption set of the mirror identities is derived by the model (difference spectrum supported only on the +-nl/2 rows/columns) and used to filter the replays. Similarity scalings (lengths and K times 2^k; winds and K times 2^k) are replayed bit-identically on the real solver with power-of-two factors.",
         note=_SOLVER_NOTE + " Scale factors other than powers of two are not claimed (int(halo/dx) may change under rounding); homogeneity of the principal square root is a property of numpy, not of the model.", design="4/C07"),
     "C10": dict(technique=_SOLVER_TECH % "levels",
         text="TLC enumerates every injective sequence of levels (all orders, with and without the top node) for nz <= 4 (5 thorough), footprint/dispersion, numerical/analytic, and checks SlotIsSingle, FullColumnSlice, LabelsAsGiven and NoSilentBroadcast on the exact model; each selection is replayed on the real solver: slot k bit-identical to the single-level solve and to the full-column slice, returned heights equal z[levels], scalar/array argument forms; mean_store and return events are validated against the specification's level bookkeeping.",
         note=_SOLVER_NOTE + " Duplicated or out-of-range levels are outside the property.", design="4/C10"),
     "C11": dict(technique=_SOLVER_TECH % "shape",
-        text="TLC enumerates grid sizes 2..5 (7 thorough) of both parities, halo None/0/commensurate/incommensurate, even and odd mode requests below/at/above the padded size, both modes, and checks ShapeOrError, ErrorsAreDeclared, LowPass and ClampEq on the exact model; the predicted outcome (error kind or exact shape) of every configuration is compared with the real solver, returned coordinates are compared with i*dx, j*dy bit-identically, low-pass behaviour through fft2 of real outputs, clamp equality bit-identically; recorded pad/clamp/spectrum/untruncate/crop/return shapes are validated against the specification.",
+        text="TLC enumerates grid sizes 2..5 (7 thorough) of both parities, halo None/0/commensurate/incommensurate, even and odd mode requests below/at/above the padded size, both modes, and checks ShapeOrError, ErrorsAreDeclared, LowPass, ClampEq and - registration with a halo - HaloIsPadding on the exact model; the predicted outcome (error kind or exact shape) of every configuration is compared with the real solver, returned coordinates are compared with i*dx, j*dy bit-identically, low-pass behaviour through fft2 of real outputs, clamp equality bit-identically; recorded pad/clamp/spectrum/untruncate/crop/return shapes are validated against the specification.",
         note=_SOLVER_NOTE + " The joint clamp (either axis too large resets both) is modelled as the code does it; the mixed case is not asserted either way.", design="4/C11"),
 })
 
@@ -62,7 +62,7 @@ CHECKS.update({
         text="Runtime.tla models config.NUM_THREADS, numba's thread count, the compiled-kernel table, the FFT-manager singleton and pyfftw's thread setting, with a solve split into the code's sub-steps (source FFT, thread set-up, kernel selection, final FFT). TLC checks Pure (what a solve computes depends only on the request and the thread setting; every FFT runs single-threaded), ManagerSingleAfterSolve, KernelMatchesSetting on all histories up to 4 (6 thorough) operations over 8 requests, thread counts 1/2/4/8 and manager resets, and emits a shortest history per reachable (state, request). Each history is executed from a process state reset to a fresh process's: every result bit-identical to the first in-process result of that request under the same kernel variant and within 1e-12 (double) / 1e-5 (single) of the same request in a fresh subprocess; a random history of 150 (1500) operations follows; single vs double within 1e-5 of the maximum; all recorded events validated against the specification's sub-steps including the logged thread counts.",
         note="In-process reset clears the kernel table and the manager (what a fresh process has); numba's thread count is compared only after the package has set it; the FFTW plan cache and wisdom file are not modelled (their effect would show as a result difference, which is compared).", design="4/C12"),
     "C14": dict(technique="TLC model checking of spec/Drivers.tla (all interleavings of take/init/solve/finish across workers) + real driver runs for every enumerated shape with delay-steered completion orders, every field compared with run_bldfm_single + TLC trace validation of the events of all processes (spec/TraceDrivers.tla)",
-        text="Drivers.tla models pool.map over forked workers: an idle worker takes the next unstarted task, resets the inherited thread/FFT state, solves, the result lands at the task's position, and the positional list is re-assembled per strategy. TLC explores every interleaving for towers 1..2 x steps 1..2 x workers 1..3 (3x3x4 thorough, 3.5M states) x 3 strategies x parent threads 1/4 and checks KeysInConfigOrder, OnePerStep, EachIsSingle, EveryTaskOnce, InitBeforeSolve; three negative controls (completion-order collection, wrong slice stride, no worker reset) must be violated (thorough). Every shape is run on the real drivers (parallel with TLC completion orders and random delays, more workers than tasks, serial timeseries/multitower, parent with 4 threads, cache on with a directory pre-populated by runs with other levels/grid and repeated met conditions) and every entry is compared field by field, bit-identically, with run_bldfm_single; the per-process event sequences of every parallel run must interleave into a behaviour of the specification.",
+        text="Drivers.tla models pool.map over forked workers: an idle worker takes the next unstarted task, resets the inherited thread/FFT state, solves, the result lands at the task's position, and the positional list is re-assembled per strategy. TLC explores every interleaving for towers 1..2 x steps 1..2 x workers 1..3 (3x3x4 thorough, 3.5M states) x 3 strategies x parent threads 1/4 and checks KeysInConfigOrder, OnePerStep, EachIsSingle, EveryTaskOnce, InitBeforeSolve; three negative controls (completion-order collection, wrong slice stride, no worker reset) must be violated (thorough). Every shape is run on the real drivers (parallel with TLC completion orders and random delays, more workers than tasks, serial timeseries/multitower, parent with 4 threads, cache on with a directory pre-populated by runs with other levels/grid and repeated met conditions) and every entry is compared field by field, bit-identically, with run_bldfm_single; the per-process event sequences of every parallel run must interleave into a behaviour of the specification. The serial drivers and the CLI loop (bldfm run: towers outer, steps inner, parallel.num_threads applied) are strategies of the same specification and are driven and traced too; a direction sweep in which only wind_dir varies and a series with a repeated record are compared entry by entry. The composition System.tla (pool x per-process runtime state x shared in-place cache directory) is model-checked and eight whole cached parallel runs are validated against it (TraceSystem).",
         note="Schedules are steered by sleeps, not controlled; the oracle does not depend on the schedule. Grouping of worker events into runs uses the append order of the trace file (the parent writes parallel_begin before forking and parallel_end after joining). A user-supplied surface flux is documented not to reach workers.", design="4/C14"),
 })
 
